@@ -927,6 +927,7 @@ func init() {
 		requestMetadata(o, r)
 		headersAfterTheCall(o)
 		everydayTrailerKeys(o)
+		streamTrailerCuts(o)
 		o.Finding = "finding_c03"
 		o.Shard = 60
 	}
@@ -1374,3 +1375,57 @@ func (d *deadWriter) Header() http.Header       { return d.h }
 func (d *deadWriter) WriteHeader(int)           {}
 func (d *deadWriter) Write([]byte) (int, error) { return 0, io.ErrClosedPipe }
 func (d *deadWriter) Flush()                    {}
+
+// streamTrailerCuts: a streaming reply over HTTP whose body ends -- cleanly, no transport error -- inside the trailer
+// frame, at every byte: the call has not delivered its trailers, so it does not report success
+func streamTrailerCuts(o *hx.Out) {
+	tr, _ := proto.Marshal(&httpgrpc.HttpTrailer{Code: 0, Message: "OK", Metadata: map[string]*httpgrpc.TrailerValues{
+		"alpha": {Values: []string{"1"}}, "beta": {Values: []string{"2"}}, "gamma": {Values: []string{"3"}}}})
+	m1, _ := proto.Marshal(&hx.Msg{Count: 1})
+	pre := make([]byte, 4)
+	var full []byte
+	binary.BigEndian.PutUint32(pre, uint32(len(m1)))
+	full = append(append(full, pre...), m1...)
+	start := len(full)
+	binary.BigEndian.PutUint32(pre, uint32(int32(-len(tr))))
+	full = append(append(full, pre...), tr...)
+	base, _ := url.Parse("http://replay.invalid/")
+	for k := start; k <= len(full); k++ {
+		h := http.Header{}
+		h.Set("Content-Type", httpgrpc.StreamRpcContentType_V1)
+		rt := roundTripFunc(func(r *http.Request) (*http.Response, error) {
+			go func() {
+				if r.Body != nil {
+					io.Copy(io.Discard, r.Body)
+					r.Body.Close()
+				}
+			}()
+			return &http.Response{StatusCode: 200, Status: "200 OK", Proto: "HTTP/1.1", ProtoMajor: 1, ProtoMinor: 1, Header: h,
+				ContentLength: -1, Body: &replayBody{bytes.NewReader(full[:k]), false}, Request: r}, nil
+		})
+		ch := &httpgrpc.Channel{Transport: rt, BaseURL: base}
+		ctx, cancel := context.WithTimeout(context.Background(), 3*time.Second)
+		var tlr metadata.MD
+		cs, err := ch.NewStream(ctx, hx.StreamDescOf("SS"), "/verif.Svc/SS", grpc.Trailer(&tlr))
+		var fin error = err
+		if err == nil {
+			cs.SendMsg(&hx.Msg{})
+			cs.CloseSend()
+			for {
+				if fin = cs.RecvMsg(&hx.Msg{}); fin != nil {
+					break
+				}
+			}
+			tlr = cs.Trailer()
+			runtime.KeepAlive(cs)
+		}
+		cancel()
+		complete := k == len(full)
+		ok := (complete && fin == io.EOF && len(tlr) == 3) || (!complete && fin != io.EOF && fin != nil)
+		d := map[string]interface{}{"transport": "httpgrpc", "kind": "SS reply: one message, then a trailer with three entries", "reply_bytes": len(full), "body_ends_cleanly_after": k, "final": fmt.Sprint(fin), "trailers_delivered": fmt.Sprint(tlr)}
+		if !ok {
+			o.Violate("a streaming call whose reply ended inside the trailer reported success (with some of the trailers missing)", d, fmt.Sprint(fin, tlr), "an error")
+		}
+		checked(o, "stream_trailer_cut", k, ok, d)
+	}
+}
